@@ -368,7 +368,7 @@ func init() {
 	register(&rt.Check{
 		ID:    "C03",
 		Level: "exploration",
-		Rule: "(a) the one-clause shape space: subject {stored, absent, binding} x extractions {-, AS, TYPE, ID, TYPE+ID, AS+TYPE+ID}; predicate {immutable stored/absent, temporal, temporal in another zone, binding, \"id\"@[?t], \"id\"@[,], \"id\"@[T1,T2], \"id\"@[T2,]} x {-, AS, ID, AT, ...}; object {node, literal, predicate, binding, the subject's binding again, \"p\"@[?t], \"p\"@[T1,T2]} x {-, AS, TYPE, ID, AT, ...} (quick: at most one extraction; thorough: all ~27k shapes) on two data sets; (b) two-clause combinations of a reduced shape set sharing 0-2 bindings in any position pair (quick: sampled, thorough: all); (c) random 2-4 clause patterns with shared bindings, bounds whose limits are time bindings of earlier clauses (\"id\"@[?lo,?hi]), global BEFORE/AFTER/BETWEEN, 1-3 FROM graphs, projections with aliases; all rendered to BQL text and run through lexer, parser, planner and Execute, on a fresh memory store and on one long-lived memoizing store per data set (which has served the earlier statements); " +
+		Rule: "(a) the one-clause shape space: subject {stored, absent, binding} x extractions {-, AS, TYPE, ID, TYPE+ID, AS+TYPE+ID}; predicate {immutable stored/absent, temporal, temporal in another zone, binding, \"id\"@[?t], \"id\"@[,], \"id\"@[T1,T2], \"id\"@[T2,]} x {-, AS, ID, AT, ...}; object {node, literal, predicate, binding, the subject's binding again, \"p\"@[?t], \"p\"@[T1,T2]} x {-, AS, TYPE, ID, AT, ...} (quick: at most one extraction; thorough: all ~27k shapes) on two data sets; (b) two-clause combinations of a reduced shape set sharing 0-2 bindings in any position pair (quick: sampled, thorough: all); (c) random 2-4 clause patterns with shared bindings, bounds whose limits are time bindings of earlier clauses (\"id\"@[?lo,?hi]), global BEFORE/AFTER/BETWEEN, 1-3 FROM graphs, projections with aliases; all rendered to BQL text and run through lexer, parser, planner and Execute, on a fresh memory store and on one long-lived memoizing store per data set (which has served the earlier statements); a sample of (c) under -race; " +
 			"oracle: naive nested-loop evaluator of Appendix A, rows compared as multisets of kind-tagged canonical cells (sets when a triple sits in several listed graphs); an Execute error is a violation; non-trivial = reference result non-empty and the data holds a near miss (matches all but one component of a clause); distinct by statement text",
 		Assume: []string{"reference semantics of DESIGN.md Appendix A (taken from the property and docs/bql.md)", "TYPE/ID string bindings are never reused in subject/predicate/object position (join of str with text literal is undefined)"},
 		Floor:  300,
@@ -381,6 +381,7 @@ func init() {
 				{Name: "one-clause", N: 16, Exhaustive: true, Run: func(i int, r *rt.Rec) { c03OneClause(r, i, 16, seed, maxExtr) }},
 				{Name: "two-clause", N: 16, Exhaustive: tier == "thorough", Run: func(i int, r *rt.Rec) { c03TwoClause(r, i, 16, seed, twoLimit) }},
 				{Name: "random", N: 16, Run: func(i int, r *rt.Rec) { c03Random(r, gen.Rng(seed, "c03rnd", i), rnd/16) }},
+				{Name: "random-race", N: 16, Race: true, Procs: 16, Run: func(i int, r *rt.Rec) { c03Random(r, gen.Rng(seed, "c03rr", i), rnd/160) }},
 			}
 		},
 	})
